@@ -5,7 +5,8 @@ From Coq Require Import List NArith ZArith Bool.
 From Qryn Require Import model.IngestRobust model.IngestPipe proofs.IngestPipeProofs.   (* C05's count-level parser pipeline; first: C02's names win *)
 From Qryn Require Import model.Ingest model.PushHandler model.IngestSpec model.IngestFresh proofs.IngestBase proofs.IngestAck
   proofs.IngestSpecProofs proofs.IngestPromises model.IngestSched model.PushConfirm proofs.IngestShapes
-  model.IngestBridge proofs.IngestBridgeProofs proofs.IngestBridgeRows proofs.IngestFreshFrom proofs.IngestLoops.
+  model.IngestBridge proofs.IngestBridgeProofs proofs.IngestBridgeRows proofs.IngestFreshFrom proofs.IngestLoops
+  model.IngestSwap2 proofs.IngestSwap2Proofs.
 From Qryn Require model.Spans model.IngestWidths proofs.IngestWidthsProofs.
 Import ListNotations.
 
@@ -334,3 +335,43 @@ Theorem skipping_loop_is_rejected :
   /\ loops_ok (fst (IngestLoops.six_tables series_loops_model)) (snd (IngestLoops.six_tables series_loops_model)) = true.
 Proof. exact (conj IngestLoops.c02e_loops_are_rejected IngestLoops.unchanged_series_loops_pass). Qed.
 Print Assumptions skipping_loop_is_rejected.
+
+(* Round 6 (seeded C02-f).  swapBuffers takes the waiting promises AND the column set in one hold of the service mutex; the variant of the
+   model in which that is two critical sections -- the waiters taken first, the columns swapped after the next set was acquired with the
+   mutex released (model/IngestSwap2.v: ATake / AInstall, every other step unchanged) -- violates the property: a run with three
+   well-formed one-row requests in which a request served in the window has its row in a block that is not the table of that block's
+   waiters (MTable, MClean reject) and is acknowledged although no accepted block holds its row (C01's monitor rejects). *)
+Theorem two_step_swap_refuted :
+  exists tr x es,
+    grun2 (ginit2 window_demo_cfg 1) tr = Some (x, es) /\
+    forallb act2_wf tr = true /\
+    run_mon (amon_step true) (amon_init 1) es = None /\
+    run_mon (smon_step MTable) (smon_init 1) es = None /\
+    run_mon (smon_step MClean) (smon_init 1) es = None.
+Proof. exact IngestSwap2Proofs.two_step_swap_refuted. Qed.
+Print Assumptions two_step_swap_refuted.
+
+(* The window is the ONLY difference: without a step between them the two halves are exactly the step SSwap of the model (a take that
+   finds nobody waiting is the swap that returns nil) ... *)
+Theorem take_then_install_is_the_swap : forall x s,
+  in_window (g_taken x) s = false ->
+  match gstep (g_base x) (GSvc s SSwap) with
+  | Some (g', []) => gstep2 x (ATake s) = Some ({| g_base := g'; g_taken := g_taken x |}, [])
+  | Some (g', es) => grun2 x [ATake s; AInstall s] = Some ({| g_base := g'; g_taken := g_taken x |}, es)
+  | None => gstep2 x (ATake s) = None
+  end.
+Proof. exact IngestSwap2Proofs.take_then_install_is_the_swap. Qed.
+Print Assumptions take_then_install_is_the_swap.
+
+(* ... so every run of the variant, of any length and configuration, in which each take is followed at once by its install is a run
+   of the unchanged model with the same events, and satisfies both monitors when its requests are tables.  What one critical section
+   enforces is exactly `windowless`; that the source has this one region is checked on every run (regions_ok, swap_fresh) and the real
+   service is driven into the window by the harness operation mreq. *)
+Theorem windowless_two_step_runs_are_sound : forall cfg n tr l x es,
+  windowless (ginit2 cfg n) tr = Some l ->
+  forallb act_wf l = true ->
+  grun2 (ginit2 cfg n) tr = Some (x, es) ->
+  run_mon (amon_step true) (amon_init (length cfg)) es <> None /\
+  run_mon (smon_step MTable) (smon_init (length cfg)) es <> None.
+Proof. exact IngestSwap2Proofs.windowless_two_step_runs_are_sound. Qed.
+Print Assumptions windowless_two_step_runs_are_sound.
